@@ -97,6 +97,10 @@ def run_c12(ctx):
         sc['final_probe'] = True
     ctx.run_and_validate(DRIVER, COMP, TRACE, conc, 'concurrent_residue', nontrivial=nontrivial_conc,
                          known_match=known_match)
+    ctx.run_and_validate(DRIVER, COMP, TRACE, unheld_release_cases(ctx.tier), 'unheld_release_during_wait',
+                         known_match=known_match)
+    ctx.run_and_validate(DRIVER, COMP, TRACE, residue_stall_sweep(ctx.tier), 'residue_stall_sweep',
+                         known_match=known_match)
     from harness.components import filelockmodel
     filelockmodel.model_check(ctx)
     ctx.cov['state_op_pairs_covered'] = total_pairs
@@ -108,6 +112,64 @@ def run_c12(ctx):
              'injected into open/lock/unlock/close, at most 2 faults per sequence; each sequence is '
              'executed on the real FileLock (real descriptors, real flock) and every step compared with '
              'Apply() by TLC; distinct = distinct observable traces')
+
+
+def unheld_release_cases(tier):
+    """"Releasing an unheld lock is a no-op" while somebody else is *waiting* for that object: object 2 holds the OS
+    lock for the whole window, T2 is inside a timed acquire of object 1 (it owns 1's in-process lock and has counted
+    itself in, but 1 holds nothing), T3 calls release() on 1.  By construction 1 is never held at that instant, so
+    the call is inside the contract whatever the schedule; afterwards T2 either times out (False, nothing kept) or
+    gets the lock once 2 lets go, and at the end nothing may be left behind."""
+    out = []
+    for reent in (False, True):
+        for hold2, t2_timeout, rel_at in ((1.0, 100, 0.03), (1.0, 100, 0.08), (1.0, 300, 0.03), (1.0, 300, 0.2),
+                                          (1.0, 0, 0.005), (0.06, 300, 0.03), (0.06, 100, 0.03), (0.06, -1, 0.03)):
+            for form in ('acquire', 'ctx'):
+                threads = {'T1': [{'form': 'acquire', 'o': 2, 'blocking': True, 'timeout': -1, 'hold': hold2}],
+                           'T2': [{'form': form, 'o': 1, 'blocking': True, 'timeout': t2_timeout, 'hold': 0.05,
+                                   'delay': 0.01}],
+                           'T3': [{'spurious': 1, 'only_spurious': True, 'delay': rel_at}]}
+                base = {'mode': 'conc', 'cfg': {'reentrant': [reent, False], 'deftimeout': [-1, -1], 'poll': 50},
+                        'threads': threads, 'trace': True, 'final_probe': True,
+                        'strategy': {'kind': 'replay', 'prefix': []}}
+                out.append(base)
+                if hold2 >= 1.0:
+                    # ... and with either thread descheduled for a while at its k-th line (object 1 is never held in
+                    # these programs, so the release stays an unheld one wherever it lands)
+                    for thr in ('T2', 'T3'):
+                        for k in range(1, 31 if tier == 'quick' else 61, 1 if tier != 'quick' else 2):
+                            out.append(dict(base, stalls={thr: [k, 0.25]}))
+    return out
+
+
+def residue_stall_sweep(tier):
+    """A thread descheduled at its k-th line for longer than the other threads need to finish their rounds on the
+    same object (failure path / release path racing a complete acquire-release of somebody else); afterwards no
+    object may claim the lock and every object can take it."""
+    out = []
+    bases = [
+        # a refused attempt on the shared object 1 while 2 holds the lock; T3 then takes and gives back 1
+        {'T1': [{'form': 'acquire', 'o': 2, 'blocking': True, 'timeout': -1, 'hold': 0.1}],
+         'T2': [{'form': 'acquire', 'o': 1, 'blocking': False, 'timeout': -2, 'hold': 0, 'delay': 0.01}],
+         'T3': [{'form': 'acquire', 'o': 1, 'blocking': True, 'timeout': -1, 'hold': 0.05, 'delay': 0.05}]},
+        # the same with a timed attempt that runs out
+        {'T1': [{'form': 'acquire', 'o': 2, 'blocking': True, 'timeout': -1, 'hold': 0.15}],
+         'T2': [{'form': 'ctx', 'o': 1, 'blocking': True, 'timeout': 50, 'hold': 0, 'delay': 0.01}],
+         'T3': [{'form': 'with', 'o': 1, 'hold': 0.05, 'delay': 0.05}]},
+        # a holder releasing while two others queue for the same object
+        {'T1': [{'form': 'acquire', 'o': 1, 'blocking': True, 'timeout': -1, 'hold': 0.05}],
+         'T2': [{'form': 'acquire', 'o': 1, 'blocking': True, 'timeout': -1, 'hold': 0.02, 'delay': 0.01}],
+         'T3': [{'form': 'acquire', 'o': 1, 'blocking': True, 'timeout': 100, 'hold': 0.02, 'delay': 0.02},
+                {'form': 'acquire', 'o': 2, 'blocking': False, 'timeout': -2, 'hold': 0, 'delay': 0.3}]},
+    ]
+    for threads in bases:
+        for reent in (False, True):
+            for thr in sorted(threads):
+                for k in range(1, 51 if tier == 'quick' else 121):
+                    out.append({'mode': 'conc', 'cfg': {'reentrant': [reent, False], 'deftimeout': [-1, -1], 'poll': 50},
+                                'threads': threads, 'trace': True, 'final_probe': True,
+                                'stalls': {thr: [k, 0.6]}, 'strategy': {'kind': 'replay', 'prefix': []}})
+    return out
 
 
 # ------------------------------------------------------------------ C02
